@@ -38,7 +38,8 @@ U_C18 == {
     RDecl(<<U1("a"), DataF("d", SzField("a"))>>, {0, 1, 36}, 3),
     RDecl(<<U1("a"), DataF("d", Defer(EBin("sub", EF("a"), EC(1))))>>, {1, 2, 46}, 3),
     \* a little-endian class: integers follow it, bit groups do not
-    [RDecl(<<IntF("a", 2, FALSE, "default"), BitsF("h", 4), BitsF("l", 12), U1("z")>>, {1, 165}, 5)
-        EXCEPT !.prog = [C0 |-> Class([DefaultOpts EXCEPT !.endian = "little"], <<IntF("a", 2, FALSE, "default"), BitsF("h", 4), BitsF("l", 12), U1("z")>>)]]
+    \* (the bit group first: the candidate with the first two bytes swapped is its byte-swapped image)
+    [RDecl(<<BitsF("h", 4), BitsF("l", 12), IntF("a", 2, FALSE, "default"), U1("z")>>, {1, 165}, 5)
+        EXCEPT !.prog = [C0 |-> Class([DefaultOpts EXCEPT !.endian = "little"], <<BitsF("h", 4), BitsF("l", 12), IntF("a", 2, FALSE, "default"), U1("z")>>)]]
 }
 =============================================================================
